@@ -100,10 +100,11 @@ Proof. exact op_step_reach. Qed.
 Print Assumptions C13_runner_steps_are_atomic_steps.
 
 (* non-vacuity: limit 1; second and third call wait; limit lowered to 0, the open stream
-   closes (quota back to 0: nobody admitted); limit raised to 2: both admitted with ids 3, 5. *)
+   closes (quota back to 0: nobody admitted); a SETTINGS frame without the parameter changes
+   nothing; limit raised to 2: both admitted with ids 3, 5. *)
 Example C13_witness :
-  run [1] [[1]; [1]; [1]; [2; 0]; [3; 0; 0]; [2; 2]] =
+  run [1] [[1]; [1]; [1]; [2; 0]; [3; 0; 0]; [6; 7]; [2; 2]] =
   Some [[0;0;1;0;0;0;1;1;1]; [0;1;1;1;0;0;0]; [0;2;1;2;0;0;0]; [-1;2;1;2;0;0;0];
-        [0;2;0;2;0;0;0]; [0;0;2;0;0;0;2;3;5;3;5]] /\
-  forallb op_wf [[1]; [1]; [1]; [2; 0]; [3; 0; 0]; [2; 2]] = true.
+        [0;2;0;2;0;0;0]; [0;2;0;2;0;0;0]; [0;0;2;0;0;0;2;3;5;3;5]] /\
+  forallb op_wf [[1]; [1]; [1]; [2; 0]; [3; 0; 0]; [6; 7]; [2; 2]] = true.
 Proof. vm_compute. split; reflexivity. Qed.
